@@ -49,6 +49,7 @@ type scheduler struct {
 	cur     *goroutine
 	yield   chan yieldMsg
 	explore bool
+	fine    bool // sync operations are pre-emption points too (otherwise only spawn, nd.Yield and blocking)
 	budget  int // remaining pre-emptions
 	switches int
 }
@@ -102,7 +103,7 @@ func (in *interpreter) spawn(fr *frame, fn value, args []value, pos token.Pos) *
 		s.yield <- yieldMsg{g, kind, pv}
 	}()
 	if fr != nil && s.explore {
-		in.schedPoint(fr)
+		in.yieldPoint(fr)
 	}
 	return g
 }
@@ -127,6 +128,14 @@ func (in *interpreter) park(fr *frame, ready func() bool, desc string) {
 
 // schedPoint gives the scheduler the opportunity to pre-empt the current goroutine.
 func (in *interpreter) schedPoint(fr *frame) {
+	if s := in.sched; s == nil || !s.fine {
+		return
+	}
+	in.yieldPoint(fr)
+}
+
+// yieldPoint is a pre-emption point in every exploring mode.
+func (in *interpreter) yieldPoint(fr *frame) {
 	s := in.sched
 	if s == nil || !s.explore || s.budget <= 0 || fr.g == nil {
 		return
